@@ -334,6 +334,18 @@ class GuardStates:
             self._reads[t] = access_paths(cond)
         return (t, pol)
 
+    def _split_cond(self, cond: ast.expr, pol: bool) -> List[Fact]:
+        """a true conjunction / false disjunction holds part by part: separate facts, so that a store to one operand's
+        variable does not lose what is known about the others (`if not ready and m.is_logger: ...; ready = True`)"""
+        if isinstance(cond, ast.BoolOp) and ((isinstance(cond.op, ast.And) and pol) or (isinstance(cond.op, ast.Or) and not pol)):
+            out: List[Fact] = [self._fact(cond, pol)]
+            for v in cond.values:
+                out.extend(self._split_cond(v, pol))
+            return out
+        if isinstance(cond, ast.UnaryOp) and isinstance(cond.op, ast.Not):
+            return [self._fact(cond, pol)] + self._split_cond(cond.operand, not pol)
+        return [self._fact(cond, pol)]
+
     def _tracked(self, cond: ast.expr) -> bool:
         return self.relevant is None or bool(access_paths(cond) & self.relevant)
 
@@ -436,10 +448,10 @@ class GuardStates:
                     # happened -> kill as well (sound both ways: fewer facts)
                     f2 = self._kill(facts, st)
                     if e.cond is not None and self._tracked(e.cond):
-                        fc = self._fact(e.cond, e.pol)
-                        if (fc[0], not fc[1]) in f2:
+                        fcs = self._split_cond(e.cond, e.pol)
+                        if any((fc[0], not fc[1]) in f2 for fc in fcs):
                             continue  # the opposite is known on these paths: the branch is not taken
-                        f2 = f2 | {fc}
+                        f2 = f2 | set(fcs)
                     if self.marks is not None:
                         mk = self.marks(e)
                         if mk:
@@ -510,10 +522,10 @@ class GuardStates:
         for facts in self.state[e.src]:
             f2 = self._kill(facts, st)
             if e.cond is not None and self._tracked(e.cond):
-                fc = self._fact(e.cond, e.pol)
-                if (fc[0], not fc[1]) in f2:
+                fcs = self._split_cond(e.cond, e.pol)
+                if any((fc[0], not fc[1]) in f2 for fc in fcs):
                     continue
-                f2 = f2 | {fc}
+                f2 = f2 | set(fcs)
             if e.kind != "exc":
                 for cf in self._const_assign_facts(node):
                     if self._tracked(self.exprs[cf[0]]):
